@@ -273,7 +273,7 @@ def gen_history(rng):
                 if float(pe[tuple(q["evidence"][v] for v in q["evidence"])]) < 0.05:
                     q["evidence"] = {}       # rejection loops are unbounded for rare evidence
             q["size"] = rng.choice([1, 5, 30])
-            q["seed"] = rng.randrange(10 ** 6)
+            q["seed"] = rng.choice([0, 0, 1, 2 ** 32 - 1, rng.randrange(10 ** 6), rng.randrange(10 ** 6)])
             q["virtual"] = []
         qs.append(q)
     return {"w": "H", "bn": bn, "questions": qs, "build_seed": rng.randrange(10 ** 6)}
